@@ -90,6 +90,9 @@ mod hss;
 mod lm_ots;
 mod lms;
 mod util;
+#[cfg(feature = "verif_hooks")]
+#[doc(hidden)]
+pub mod verif_hooks;
 
 // Re-export the `signature` crate
 pub use signature::{self};
